@@ -33,6 +33,14 @@ declare -A CHECKS=(
  [R2-C17A-append-shares-parent-signed-blocks]="C17 C08"
  [R2-C17B-next-key-seeded-with-single-read]="C17 C20"
  [R2-C19A-append-appends-to-parent-signed-blocks]="C19 C08"
+ [R3-C02A-query-merges-block-worlds-into-authorizer-world]="C02 C03"
+ [R3-C03A-authority-loaded-once-per-authorizer]="C03 C04"
+ [R3-C04A-stale-block-worlds-reused]="C04 C13"
+ [R3-C05B-derivation-budget-counts-rederived-facts]="C05 C11"
+ [R3-C07A-createblock-shares-token-symbol-table]="C07 C08"
+ [R3-C12B-join-restart-position-zero-sentinel]="C12 C05"
+ [R3-C15A-getblockid-interns-into-token-table]="C15 C08"
+ [R3-C19B-getblockid-fast-path-misses-strings-in-sets-concurrent]="C19 C08"
 )
 out=${OUT:-seeded/MATRIX.md}
 { echo "# Seeded changes x checks (quick tier, VERIF_SEED=${VERIF_SEED:-1}, /repo $(git -C /repo rev-parse --short HEAD))"; echo
@@ -40,7 +48,7 @@ out=${OUT:-seeded/MATRIX.md}
   echo "| seeded change | check | exit | violations | first violation keys |"; echo "|---|---|---|---|---|"; } > $out
 for d in $(ls seeded | grep -v MATRIX | grep "${ONLY:-.}"); do
   [ -f seeded/$d/patch.diff ] || continue
-  git -C /repo apply /verif/seeded/$d/patch.diff || { echo "| $d | - | patch does not apply | | |" >> $out; continue; }
+  git -C /repo apply /verif/seeded/$d/patch.diff || { echo "| $d | - | patch does not apply to this HEAD (see its meta.json) | | |" >> $out; continue; }
   ids="${CHECKS[$d]}"; [ -z "$ids" ] && ids=$(echo $d | sed -n 's/^R[0-9]-\(C[0-9][0-9]\).*/\1/p')
   for id in $ids; do
     o=$(./check $id quick 2>&1); code=$?
